@@ -544,6 +544,8 @@ package workflow
 //@     dep(dag, stagenode(s, n), stagenode(s, st.ID)) == st.NextStages[n] && st.NextStages[n] != ""
 //
 //@ func (*executor).connectStepDependencies
+//@   site call prepareDependencies#1 assert [the-dependency-groups-of-an-input-field-are-named-under-that-field] \
+//@        len(callarg(prepareDependencies, 1, 4)) == 1 && callarg(prepareDependencies, 1, 4)[0] == inputField && callarg(prepareDependencies, 1, 3) == currentStageNode
 //@   opt init construction
 //@   requires e != nil && e.logger != nil && workflow != nil && dag != nil
 //@   requires wfitems(dag)
